@@ -286,6 +286,36 @@ int main(int argc, char **argv){
             auto xp = probe_points(api, 5, (unsigned) (scen * 31 + step));
             std::string xf = write_matrix("xq.txt", 5, d, xp.data());
             { std::vector<double> w; for(int k=0; k<5; k++){ auto wk = api.getInterpolationWeights(std::vector<double>(xp.begin() + (size_t) k * d, xp.begin() + (size_t) (k + 1) * d)); w.insert(w.end(), wk.begin(), wk.end()); } cmp("-gi -xf " + xf, w, "q_interweights", 1.0e-10); }
+            // declared polynomial spaces: one -getpoly per selection type (Global / Sequence)
+            if (api.isGlobal() || api.isSequence()){
+                // (the tool accepts only the types that name interpolation or quadrature)
+                const char *types[8] = {"iptotal", "ipcurved", "iphyperbolic", "iptensor", "qptotal", "qpcurved", "qphyperbolic", "qptensor"};
+                for(int t = (int) ((scen + step) % 2); t < 8; t += 2){       // four of the eight per state, all of them over a history
+                    std::string ty = types[t];
+                    bool interp = (ty == "iptotal" || ty == "ipcurved" || ty == "iphyperbolic" || ty == "iptensor");
+                    auto sp = api.getGlobalPolynomialSpace(interp);
+                    std::vector<double> ref(sp.begin(), sp.end());
+                    cmp("-getpoly -type " + ty, ref, (std::string("q_getpoly_") + ty).c_str());
+                }
+            }
+            // hierarchical basis at the probe points (dense), supports
+            if (!api.isGlobal() || api.getNumLoaded() > 0 || api.getNumOutputs() == 0){
+                try{ std::vector<double> hd; api.evaluateHierarchicalFunctions(xp, hd); cmp("-evalhierarchyd -xf " + xf, hd, "q_evalhierarchyd", 1.0e-13); }catch(std::exception &){ }
+            }
+            if (api.isLocalPolynomial() || api.isWavelet()){ auto sup = api.getHierarchicalSupport(); cmp("-gethsupport", sup, "q_hsupport"); }
+            if (outs > 0 && api.getNumLoaded() > 0 && api.getNumNeeded() == 0){
+                // differentiation weights and Jacobians at the interior probes (nodes of piece-wise bases have one-sided derivatives: same code on both sides)
+                try{
+                    std::vector<double> jac, dw;
+                    for(int k=0; k<5; k++){
+                        std::vector<double> xi(xp.begin() + (size_t) k * d, xp.begin() + (size_t) (k + 1) * d), j1;
+                        api.differentiate(xi, j1); jac.insert(jac.end(), j1.begin(), j1.end());
+                        auto w1 = api.getDifferentiationWeights(xi); dw.insert(dw.end(), w1.begin(), w1.end());
+                    }
+                    cmp("-differentiate -xf " + xf, jac, "q_differentiate", 1.0e-12);
+                    cmp("-getdiffweights -xf " + xf, dw, "q_diffweights", 1.0e-12);
+                }catch(std::exception &){ }
+            }
             if (outs > 0 && api.getNumLoaded() > 0){
                 std::vector<double> y; api.evaluateBatch(xp, y); cmp("-e -xf " + xf, y, "q_evaluate");
                 std::vector<double> q; api.integrate(q); cmp("-i", q, "q_integrate", 1.0e-10);
